@@ -63,6 +63,8 @@ def jobs(tier, seed):
         js.append(dict(items=[['lf', 'chunked_ext', b], ['canon', 'cl', b]], mode='few'))
     js.append(dict(items=[['canon', 'cl', 'huge'], ['canon', 'chunked1', 'text']], mode='few'))
     js.append(dict(items=[['canon', 'chunked1', 'huge']], mode='few'))
+    js.append(dict(items=[['pad32768', 'cl', 'text'], ['pad32767', 'chunked1', 'text']],
+                   mode='few'))
     # an over-long body FIRST, then another exchange: the surplus must go away with the
     # connection (only deliveries in which the surplus arrives together with the last body
     # byte are offered, DESIGN.md section 6)
